@@ -228,6 +228,8 @@ func genStep(rt *rapid.T, p *Profile, cfg *Config, i int) Step { //nolint:cyclop
 		if p.Odd {
 			if rapid.IntRange(0, 7).Draw(rt, "txfrom") == 0 {
 				st.TxFrom = rapid.IntRange(1, nc).Draw(rt, "txFromC")
+			} else if !st.Retx && rapid.IntRange(0, 7).Draw(rt, "txExtreme") == 0 {
+				st.TxFrom = rapid.SampledFrom([]int{-1, -1, -2}).Draw(rt, "txExtremeV") // all-zero / all-ones transaction id
 			}
 			st.Fam = rapid.SampledFrom([]int{0, 0, 0, 0, 1, 2, 3}).Draw(rt, "fam")
 			st.Opt = rapid.SampledFrom([]string{"", "", "", "", "", "evenport", "evenport", "token", "token", "token+even", "dontfrag", "notransport", "badtransport", "token+fam"}).Draw(rt, "opt")
